@@ -4,4 +4,4 @@ BINS = ["lane", "tok", "int", "lin", "mask", "conv", "hid", "rot", "interp", "sa
 FEAT_CFGS = ["feat", "feat-scalar", "feat-coresimd"]
 FEAT_BINS = ["ser"]
 ASSERT_CFGS = ["assert", "assert-scalar"]
-ASSERT_BINS = ["chain", "rot"]
+ASSERT_BINS = ["chain", "rot", "lin"]
